@@ -14,17 +14,18 @@ import (
 type stubFn func(ex *Exec, fn *ssa.Function, args []Value) Value
 
 var stubDocs = map[string]string{
-	"fmt.Errorf":              "opaque error value; the %w operand is kept so errors.Is works",
-	"fmt.Sprintf":             "opaque string",
-	"errors.Is":               "identity walk over the kept %w chain",
-	"bytes.Index":             "summary: first-match semantics as a solver term over the cells, result concretised",
-	"bytes.Equal":             "cell-wise equality term",
-	"(*sync.Mutex).Lock":      "sequential mode: held flag in the mutex state word (double Lock = reported deadlock)",
-	"(*sync.Mutex).Unlock":    "sequential mode: clears the held flag",
-	"sync/atomic.*":           "Add/Load/Store/Swap/CompareAndSwap on 32/64-bit integers: one indivisible read-modify-write; in thread mode a critical section of a per-cell pseudo-mutex, so atomic accesses exclude each other and race with plain ones",
-	"time.Unix":               "time.Time modelled as its Unix-nanosecond int64 (sec*1e9+nsec, wrapping)",
-	"(time.Time).UnixNano":    "returns the modelled int64",
-	"randutil (package init)": "globalMathRandomGenerator is left nil by init; harnesses install a nondet fake",
+	"fmt.Errorf":           "opaque error value; the %w operand is kept so errors.Is works",
+	"fmt.Sprintf":          "opaque string",
+	"errors.Is":            "identity walk over the kept %w chain",
+	"bytes.Index":          "summary: first-match semantics as a solver term over the cells, result concretised",
+	"bytes.Equal":          "cell-wise equality term",
+	"(*sync.Mutex).Lock":   "sequential mode: held flag in the mutex state word (double Lock = reported deadlock)",
+	"(*sync.Mutex).Unlock": "sequential mode: clears the held flag",
+	"sync/atomic.*":        "Add/Load/Store/Swap/CompareAndSwap on 32/64-bit integers: one indivisible read-modify-write; in thread mode a critical section of a per-cell pseudo-mutex, so atomic accesses exclude each other and race with plain ones",
+	"time.Unix":            "time.Time modelled as its Unix-nanosecond int64 (sec*1e9+nsec, wrapping)",
+	"(time.Time).UnixNano": "returns the modelled int64",
+	"(time.Time).After/Before/Equal/Compare/Add/Sub/Unix": "signed comparison / wrapping arithmetic on the modelled int64 nanoseconds (no monotonic reading, no saturation of Sub)",
+	"randutil (package init)":                             "globalMathRandomGenerator is left nil by init; harnesses install a nondet fake",
 }
 
 func (ex *Exec) freshName(name string) string {
@@ -319,10 +320,52 @@ func (p *Program) computeStub(fn *ssa.Function) stubFn {
 	case "sync/atomic.CompareAndSwapUint32", "sync/atomic.CompareAndSwapUint64", "sync/atomic.CompareAndSwapInt32",
 		"sync/atomic.CompareAndSwapInt64", "sync/atomic.CompareAndSwapUintptr":
 		return stubAtomic("cas")
+	case "(time.Time).After", "(time.Time).Before", "(time.Time).Equal", "(time.Time).Compare":
+		return func(ex *Exec, fn *ssa.Function, args []Value) Value {
+			a, b := ex.timeNs(args[0]), ex.timeNs(args[1])
+			switch fn.Name() {
+			case "After":
+				return ex.tt.Slt(b, a)
+			case "Before":
+				return ex.tt.Slt(a, b)
+			case "Equal":
+				return ex.tt.Eq(a, b)
+			}
+			return ex.tt.Ite(ex.tt.Slt(a, b), ex.c64(^uint64(0)), ex.tt.Ite(ex.tt.Eq(a, b), ex.c64(0), ex.c64(1)))
+		}
+	case "(time.Time).Add":
+		return func(ex *Exec, fn *ssa.Function, args []Value) Value {
+			return ex.timeVal(fn.Signature.Results().At(0).Type(), ex.tt.BvAdd(ex.timeNs(args[0]), ex.term(args[1], "duration")))
+		}
+	case "(time.Time).Sub":
+		return func(ex *Exec, fn *ssa.Function, args []Value) Value {
+			return ex.tt.BvSub(ex.timeNs(args[0]), ex.timeNs(args[1]))
+		}
+	case "(time.Time).Unix":
+		return func(ex *Exec, fn *ssa.Function, args []Value) Value {
+			// floor division by 1e9 (Unix() of instants before 1970 rounds towards minus infinity)
+			ns := ex.timeNs(args[0])
+			q := ex.tt.BvSdiv(ns, ex.c64(1000000000))
+			r := ex.tt.BvSrem(ns, ex.c64(1000000000))
+			return ex.tt.Ite(ex.tt.Slt(r, ex.c64(0)), ex.tt.BvSub(q, ex.c64(1)), q)
+		}
+	case "(time.Time).IsZero":
+		return func(ex *Exec, fn *ssa.Function, args []Value) Value {
+			// the zero Time is year 1, far outside the modelled int64 nanosecond range around 1970
+			return ex.tt.False
+		}
 	case "github.com/pion/randutil.NewMathRandomGenerator":
 		return func(ex *Exec, fn *ssa.Function, args []Value) Value { return &IfaceVal{} }
 	}
 	return nil
+}
+
+func (ex *Exec) timeNs(v Value) *Term {
+	sv, ok := v.(*StructVal)
+	if !ok || len(sv.Leaves) < 2 {
+		ex.unsupported("time.Time operand is %s", describe(v))
+	}
+	return ex.term(sv.Leaves[1], "time.Time nanoseconds")
 }
 
 func (ex *Exec) timeVal(t types.Type, ns *Term) Value {
